@@ -38,6 +38,10 @@ def obligations(tier):
         Ob('strip_tif_equals_unmarked', 'ch', 'capacity 1..4, record-number/checksum trailers, record lengths 1..7 and 1..5',
            ['DeTif.strip_tif', 'DeTif._read_tifs', 'PhysRecWrite.writeLr', 'TifMarkerWrite'], harness='C05_physrec', func='strip_tif_is_plain',
            timeout=240 if q else 900, parts=4, stubs=stubs),
+        Ob('maximum_length_physical_records', 'ch', 'physical record length 65535 (the maximum, the writer default), TIF on/off, record number / checksum trailer on/off; first logical record '
+           'fills its first physical record exactly or misses / exceeds it by 1..2 bytes; written, laid out per LIS-79, read back whole, after seeks, and in sized pieces',
+           ['PhysRecWrite.writeLr', 'PhysRecRead', 'TifMarker.TifMarkerRead.__init__/read', 'TifMarker.TifMarkerWrite', 'File.FileWrite/FileRead'], harness='C05_physrec', func='max_length_records',
+           timeout=280 if q else 900, stubs=['SymFile', 'SymWFile']),
         Ob('sized_reads_and_skips_quick', 'ch', '2 records (5 and 4 bytes), capacity 2..3, TIF on/off, seek to record j, read(n)/skip(n) with n 0..5 then 0..4, then either read the rest or seek (from wherever the reads stopped) to the other / the same record: first byte, tellLr, seekCurrentLrStart + whole read',
            ['PhysRecRead.readLrBytes/skipLrBytes/__readOrSkip/__readLdWithinPr/__skipLdWithinPr/seekLr/tellLr/seekCurrentLrStart/_reset'], harness='C05_physrec', func='sized_reads_and_skips_q',
            timeout=240, parts=16, stubs=stubs, tiers=()),
